@@ -61,9 +61,45 @@ def prepare(work):
         if os.path.exists(extra):
             out.write(open(extra).read())
     gen_registry(src, har)
+    patch_diameter(work, src, har)
     for d in ("out", "bin", "tmp"):
         os.makedirs(os.path.join(work, d))
     return src, har
+
+
+def patch_diameter(work, src, har):
+    """The Diameter library the tree under test requires, copied from the module cache with one hook: the harness may
+    hold a message between the moment a connection's reader has read it and the moment it is dispatched to the
+    handler (engine fault, C19: the schedule between reader and requester is owned by the harness).  Without a hook
+    installed the copy behaves as the original."""
+    import re
+    m = re.search(r"^\s*github.com/fiorix/go-diameter\s+(\S+)", open(os.path.join(src, "go.mod")).read(), re.M)
+    if not m:
+        raise RuntimeError("the tree under test does not require github.com/fiorix/go-diameter")
+    cache = run(["go", "env", "GOMODCACHE"]).stdout.strip().splitlines()[-1]
+    orig = os.path.join(cache, "github.com", "fiorix", "go-diameter@" + m.group(1))
+    if not os.path.isdir(orig):
+        raise RuntimeError("module cache has no " + orig)
+    dst = os.path.join(work, "godiameter")
+    shutil.copytree(os.path.join(orig, "diam"), os.path.join(dst, "diam"))
+    for root, dirs, files in os.walk(dst):
+        os.chmod(root, 0o755)
+        for fn in files:
+            os.chmod(os.path.join(root, fn), 0o644)
+    srv = os.path.join(dst, "diam", "server.go")
+    text = open(srv).read()
+    line = "\t\tserverHandler{c.server}.ServeDIAM(c.writer, m)\n"
+    if text.count(line) != 1:
+        raise RuntimeError("go-diameter's serve loop is not the one the hook was written for")
+    text = text.replace(line, "\t\tif VerifBeforeDispatch != nil {\n\t\t\tVerifBeforeDispatch(c.writer, m)\n\t\t}\n" + line)
+    open(srv, "w").write(text)
+    with open(os.path.join(dst, "diam", "zz_verif_hook.go"), "w") as f:
+        f.write("package diam\n\n// VerifBeforeDispatch, when set (before any connection exists), runs in a connection's reader task after a\n"
+                "// message has been read and before it is handed to the handler.\nvar VerifBeforeDispatch func(Conn, *Message)\n")
+    if not os.path.exists(os.path.join(dst, "go.mod")):
+        open(os.path.join(dst, "go.mod"), "w").write("module github.com/fiorix/go-diameter\n")
+    with open(os.path.join(har, "go.mod"), "a") as f:
+        f.write("\nreplace github.com/fiorix/go-diameter => ../godiameter\n")
 
 
 def gen_registry(src, har):
